@@ -118,13 +118,13 @@ def _drive_ipm(args):
             continue
         # batch A: the input read with the tool's reader configuration
         evA = [ipmc.iev(1, 'given', b=src)] + read_dicts(src, a, rc, fi == '1014')
-        res['traceA'] = {'tid': 0, 'loc': False, 'strict': True, 'insts': [{'blk': fi == '1014'}], 'events': evA,
+        res['traceA'] = {'tid': 0, 'loc': False, 'strict': True, 'cols': [], 'insts': [{'blk': fi == '1014'}], 'events': evA,
                          '_desc': res['desc'] + ' [input read under A]'}
         xs = [e for e in evA if e['op'] == 'next' and e['out'] == 'rec']
         # batch B: the output must be the writer file of Layout_B of those dictionaries; and its reading
         evB = [dict(ipmc.iev(1, 'write'), m=e['d']) for e in xs] + [ipmc.iev(1, 'fin'), ipmc.iev(1, 'file', b=dst)]
         evB += read_dicts(dst, b, bc, fo == '1014')
-        res['traceB'] = {'tid': 0, 'loc': False, 'strict': True, 'insts': [{'blk': fo == '1014'}], 'events': evB,
+        res['traceB'] = {'tid': 0, 'loc': False, 'strict': True, 'cols': [], 'insts': [{'blk': fo == '1014'}], 'events': evB,
                          '_desc': res['desc'] + ' [output under B]'}
         # observed equality of the two readings under the library's standard configuration: the records of the
         # output decoded under B equal the records of the input decoded under A (ICC bytes identical)
